@@ -172,6 +172,9 @@ type netMember struct {
 	restarts  int
 	evDelay   int // blocks of delay before this node's event provider shows a transmit
 	lag       uint64
+	quiet     bool          // a decoy instance built on the same factory is alive: its polls are neither answered nor recorded
+	lastPoll  time.Duration // virtual time of the instance's start or of its latest poll of the event provider
+	maxGap    time.Duration // longest time the running instance went without polling its event provider
 	accepted  map[int]bool // report ids this instance has accepted (since its last restart)
 	everAcc   map[int]bool // report ids ever handed to ShouldAccept on this member (libocr persists accepted reports
 	// across plugin restarts and keeps asking ShouldTransmit for them)
@@ -182,9 +185,20 @@ type netEvents struct {
 	m *netMember
 }
 
+func (m *netMember) mark(now time.Duration) {
+	if g := now - m.lastPoll; g > m.maxGap {
+		m.maxGap = g
+	}
+	m.lastPoll = now
+}
+
 func (e *netEvents) GetLatestEvents(context.Context) ([]ocr2keepers.TransmitEvent, error) {
 	e.w.mu.Lock()
 	defer e.w.mu.Unlock()
+	if e.m.quiet {
+		return nil, nil
+	}
+	e.m.mark(time.Since(e.w.start))
 	var out []ocr2keepers.TransmitEvent
 	top := e.w.height
 	note := func(ev ocr2keepers.TransmitEvent) {
@@ -278,6 +292,7 @@ type JNetTrace struct {
 
 type JNetImpl struct {
 	Performed   int `json:"performed"`
+	MaxPollGapMs int `json:"maxPollGapMs,omitempty"` // longest virtual time an open honest member went without polling its transmit event provider
 	FirstReport map[string]int `json:"firstReport"` // upkeep -> first round in which it was reported
 	Eligible    map[string]int `json:"eligible"`    // upkeep -> round at which it became eligible for everybody
 }
@@ -339,7 +354,19 @@ func runNetwork(t *testing.T, r *Rng, em *Emitter, roundEm func(JRound, JRoundIm
 	}
 
 	startMember := func(m *netMember) {
-		node := NewNodeWith(t, NodeOpts{N: n, F: f, Digest: digest, OracleID: m.id, OffchainConfig: []byte(`{"performLockoutWindow":100000,"minConfirmations":1,"maxUpkeepBatchSize":3}`)}, &netEvents{w: w, m: m})
+		// libocr builds every instance of a node on ONE factory: an instance for an earlier configuration (other window,
+		// confirmations, batch size, n, f) has been built and closed on it before
+		w.mu.Lock()
+		m.quiet = true
+		w.mu.Unlock()
+		decoy := &NodeOpts{N: n + 3, F: f + 1, OracleID: m.id, OffchainConfig: []byte(`{"performLockoutWindow":7000,"minConfirmations":3,"maxUpkeepBatchSize":1}`)}
+		node := NewNodeWith(t, NodeOpts{N: n, F: f, Digest: digest, OracleID: m.id, OffchainConfig: []byte(`{"performLockoutWindow":100000,"minConfirmations":1,"maxUpkeepBatchSize":3}`),
+			Decoy: decoy, AfterDecoy: func() {
+				w.mu.Lock()
+				m.quiet = false
+				m.lastPoll = time.Since(w.start)
+				w.mu.Unlock()
+			}}, &netEvents{w: w, m: m})
 		node.Run.mu.Lock()
 		node.Run.fn = func(_ context.Context, ps []ocr2keepers.UpkeepPayload) ([]ocr2keepers.CheckResult, error) {
 			w.mu.Lock()
@@ -446,6 +473,9 @@ func runNetwork(t *testing.T, r *Rng, em *Emitter, roundEm func(JRound, JRoundIm
 		for id := range crashers {
 			if r.Chance(15) {
 				m := members[id]
+				w.mu.Lock()
+				m.mark(time.Since(w.start))
+				w.mu.Unlock()
 				m.node.Close()
 				w.op("restart", id, 0, false)
 				startMember(m)
@@ -753,6 +783,12 @@ func runNetwork(t *testing.T, r *Rng, em *Emitter, roundEm func(JRound, JRoundIm
 	}
 	for _, m := range members {
 		if m.node != nil {
+			w.mu.Lock()
+			m.mark(time.Since(w.start))
+			if g := int(m.maxGap / time.Millisecond); g > impl.MaxPollGapMs {
+				impl.MaxPollGapMs = g
+			}
+			w.mu.Unlock()
 			m.node.Close()
 		}
 	}
